@@ -130,7 +130,7 @@ def _chunks(l, n):
     return [l[i:i + k] for i in range(0, len(l), k)]
 
 
-def correspond(ctx):
+def _correspond_main(ctx):
     cr.pre()
     small, large, medium = probe(SMALL), probe(LARGE), probe(MEDIUM)
     tasks = []
@@ -251,3 +251,16 @@ def replay(payload):
     for p in probs:
         print("  problem: %s" % p)
     return not probs
+
+
+def correspond(ctx):
+    """written reports, every key removed / value retyped / truncation / byte damage: real get_report_version, read_report, _read_cached_report, _is_well_formed vs Model/CacheDoc.lean, CacheBytes.lean and the abstraction to Cache.CacheFile (Props/Gaps.lean parts 1-2)"""
+    import gaps_stream
+    res = _correspond_main(ctx)
+    dis, counts = gaps_stream.for_check(ctx, (1, 2), ctx.pick(1200, 15000), 'documents')
+    res["disagreements"] = list(res["disagreements"]) + dis
+    res["evaluations"] += sum(v.get(k, 0) for v in counts.values() if isinstance(v, dict)
+                              for k in ("texts", "byte_files", "check_command_runs", "report_runs", "cases"))
+    res["distribution"] = dict(res.get("distribution", {}), gaps=counts)
+    res["rule"] += " PLUS written reports, every key removed / value retyped / truncation / byte damage: real get_report_version, read_report, _read_cached_report, _is_well_formed vs Model/CacheDoc.lean, CacheBytes.lean and the abstraction to Cache.CacheFile (Props/Gaps.lean parts 1-2)"
+    return res
